@@ -7,6 +7,7 @@ def run_check(tier, seed, replay=None):
         model=("MC_Builder_%s_inv.cfg" % tier, "MC_Builder_%s_emit.cfg" % tier, 120 if q else 8),
         suites=[("model", "histories", [], True),
                 ("methods", "methods", [], False),
+                ("ids", "ids", [], False),
                 ("random", "random", ["--n", "150" if q else "3000", "--len", "30" if q else "60"], False)],
         required=["Ok", "Err"],
         assumptions=BASE_ASSUMPTIONS + ["the id counter is not observable: BuilderTrace carries the set of values it may have; a failing call may burn at most one id, a successful one none beyond the id it returns",
